@@ -8,6 +8,7 @@ import (
 	"strconv"
 	"strings"
 	"sync"
+	"sync/atomic"
 	"time"
 
 	"github.com/hashicorp/go-msgpack/v2/codec"
@@ -143,6 +144,7 @@ func c28Gen(rng *rand.Rand, tier string) []Case {
 	// after Close (second deregistration of the same handler)
 	for i, k := range []string{"stream", "monitor", "query"} {
 		out = append(out, Case{ID: fmt.Sprintf("slow%d", i), Ops: []string{fmt.Sprintf("race %s slowstop %d %d", k, iters/4, rng.Int63())}, Nontrivial: true, Tags: []string{k + "-slowstop"}})
+		out = append(out, Case{ID: fmt.Sprintf("cc%d", i), Ops: []string{fmt.Sprintf("race %s closeclose %d %d", k, iters, rng.Int63())}, Nontrivial: true, Tags: []string{k + "-closeclose"}})
 		out = append(out, Case{ID: fmt.Sprintf("cs%d", i), Ops: []string{fmt.Sprintf("race %s closestop %d %d", k, iters/4, rng.Int63())}, Nontrivial: true, Tags: []string{k + "-closestop"}})
 	}
 	for i := 0; i < n; i++ {
@@ -245,6 +247,26 @@ func c28Race(kind, end string, iters int, seed int64) string {
 			time.Sleep(time.Duration(rng.Intn(300)) * time.Microsecond)
 		}
 		switch {
+		case end == "closeclose":
+			// several goroutines (the application, and the reader on a dropped connection) close the client
+			// at once; afterwards a request on the closed client must fail with an error, not crash
+			var cw sync.WaitGroup
+			var ready atomic.Int32
+			const closers = 8
+			for g := 0; g < closers; g++ {
+				cw.Add(1)
+				go func() {
+					defer cw.Done()
+					ready.Add(1)
+					for ready.Load() < closers { // spin barrier: all closers enter Close together
+					}
+					_ = cl.Close()
+				}()
+			}
+			cw.Wait()
+			_ = cl.Stop(h)
+			_, _ = cl.Members()
+			cl = nil
 		case (end == "stop" || end == "slowstop") && kind != "query":
 			_ = cl.Stop(h)
 		case end == "closestop":
@@ -270,7 +292,7 @@ func c28Race(kind, end string, iters int, seed int64) string {
 func init() {
 	register(&Prop{
 		ID: "C28",
-		Rule: "the real RPC client against an in-process fake agent that floods stream/monitor/query records (and keeps flooding for 3 ms after a stop request); per case 40 (thorough 200) subscribe→random delay→Stop or Close iterations; " +
+		Rule: "the real RPC client against an in-process fake agent that floods stream/monitor/query records (and keeps flooding for 3 ms after a stop request); per case 40 (thorough 200) subscribe→random delay→Stop or Close iterations (also: eight goroutines closing the client at once, then a request on the closed client); " +
 			"every case is non-trivial (records race with Stop/Close); distinct = distinct (kind, end, seed)",
 		Gen:     c28Gen,
 		Exec:    c28Exec,
